@@ -4,6 +4,7 @@ import (
 	"fmt"
 	"math/rand"
 	"runtime"
+	"strings"
 	"sync"
 	"sync/atomic"
 	"time"
@@ -14,6 +15,7 @@ import (
 	"github.com/jsightapi/jsight-api-core/verifhook"
 
 	"verifharness/internal/proto"
+	"verifharness/internal/ref"
 )
 
 var serOps = []string{"json", "jsonindent", "openapi", "openapiindent", "title"}
@@ -128,7 +130,7 @@ func runConc(c *proto.ConcJob) *proto.ConcResult {
 					atomic.AddInt64(&sers, 1)
 					atomic.AddInt64(&comps, 1)
 					if got != baseline[idx].outs[op] {
-						addMismatch(fmt.Sprintf("%s of %s: alone=%s concurrent=%s", op, p.Name, trunc(baseline[idx].outs[op], 400), trunc(got, 400)))
+						addMismatch(fmt.Sprintf("%s%s of %s: alone=%s concurrent=%s", onlyEx(baseline[idx].outs[op], got), op, p.Name, trunc(baseline[idx].outs[op], 400), trunc(got, 400)))
 					}
 				}
 			}(idx, rot)
@@ -161,7 +163,7 @@ func runConc(c *proto.ConcJob) *proto.ConcResult {
 						atomic.AddInt64(&sers, 1)
 						atomic.AddInt64(&comps, 1)
 						if got != baseline[i].outs[op] {
-							addMismatch(fmt.Sprintf("shared %s of %s: alone=%s concurrent=%s", op, p.Name, trunc(baseline[i].outs[op], 400), trunc(got, 400)))
+							addMismatch(fmt.Sprintf("%sshared %s of %s: alone=%s concurrent=%s", onlyEx(baseline[i].outs[op], got), op, p.Name, trunc(baseline[i].outs[op], 400), trunc(got, 400)))
 						}
 					}
 				}(g)
@@ -172,4 +174,11 @@ func runConc(c *proto.ConcJob) *proto.ConcResult {
 	}
 	res.Builds, res.Sers, res.Comparisons, res.Yields = int(builds), int(sers), int(comps), int(yields)
 	return res
+}
+
+func onlyEx(a, b string) string {
+	if strings.HasPrefix(a, "B:") && strings.HasPrefix(b, "B:") && ref.OnlyExamplesDiffer([]byte(a[2:]), []byte(b[2:])) {
+		return "only-examples:"
+	}
+	return ""
 }
